@@ -648,6 +648,9 @@ func (s *Sched) BlockedReport() string {
 func Fail(format string, a ...interface{}) {
 	s := cs
 	if s == nil {
+		failMu.Lock()
+		passFails = append(passFails, fmt.Sprintf(format, a...))
+		failMu.Unlock()
 		return
 	}
 	s.gmu.Lock()
@@ -668,6 +671,36 @@ func Touch(key uintptr) {
 	}
 	t.hist = mix(t.hist, 23, s.objH[key])
 	s.objH[key] = t.hist
+}
+
+var (
+	monMu     sync.Mutex
+	failMu    sync.Mutex
+	passFails []string
+)
+
+// Monitor runs f as one atomic access to harness monitor memory identified by key.
+// Under the scheduler it is Touch(key) followed by f (threads are cooperative, so f is
+// atomic and its order relative to other Monitor calls is part of the history); in
+// pass-through mode (free-running race pass) it holds a real mutex.
+func Monitor(key uintptr, f func()) {
+	if curFast() != nil {
+		Touch(key)
+		f()
+		return
+	}
+	monMu.Lock()
+	defer monMu.Unlock()
+	f()
+}
+
+// PassFails returns and clears the failures recorded by Fail outside an exploration.
+func PassFails() []string {
+	failMu.Lock()
+	defer failMu.Unlock()
+	out := passFails
+	passFails = nil
+	return out
 }
 
 // Active reports whether an exploration is running and the caller is a managed thread.
